@@ -287,16 +287,37 @@ enum OptOp {
     NoMulti(bool),
 }
 
-const STRS: [Option<&[u8]>; 6] = [None, Some(b"NaN"), Some(b"inf"), Some(b"Infinity"), Some(b"nAn"), Some(b"I")];
+/// option strings: valid ones and ones that break exactly one documented rule (letters only,
+/// first letter n/i, 1..=50 bytes), including bytes that differ from a letter in one bit
+pub fn strs() -> &'static [Option<&'static [u8]>] {
+    static P: std::sync::OnceLock<Vec<Option<&'static [u8]>>> = std::sync::OnceLock::new();
+    P.get_or_init(|| {
+        let mut v: Vec<Option<&'static [u8]>> = vec![None, None];
+        let fixed: [&'static [u8]; 44] = [
+            // valid
+            b"NaN", b"nan", b"N", b"n", b"nAn", b"NaNQ", b"Nil", b"inf", b"Inf", b"I", b"i", b"Infinity", b"infinity", b"INFINITY", b"iZ", b"nz",
+            // invalid
+            b"", b"xan", b"Xnf", b"an", b"1nf", b"0", b"na1", b"in0", b"in_f", b"na n", b"n@n", b"i[f", b"n`n", b"i{f", b"nA\xe1", b"i\xc9f", b"n\xff", b"\xeean", b"\xc9nf", b"\x0ean", b"\x09nf", b"n\0n",
+            b"i\0", b"n.", b"i-", b"+inf", b"-nan", b"n\x80",
+        ];
+        v.extend(fixed.iter().map(|s| Some(*s)));
+        for (first, len) in [(b'n', 50usize), (b'n', 51), (b'i', 50), (b'i', 51), (b'N', 49), (b'I', 64)] {
+            let mut s = vec![first];
+            s.extend((1..len).map(|i| b"abcdefghijklmnopqrstuvwxyzABCDEFGHIJKLMNOPQRSTUVWXYZ"[i % 52]));
+            v.push(Some(Box::leak(s.into_boxed_slice())));
+        }
+        v
+    })
+}
 
 fn opt_ops() -> BoxedStrategy<Vec<OptOp>> {
     let op = prop_oneof![
         any::<bool>().prop_map(OptOp::Lossy),
         any::<u8>().prop_map(OptOp::Exp),
         any::<u8>().prop_map(OptOp::Point),
-        (0u8..6).prop_map(OptOp::Nan),
-        (0u8..6).prop_map(OptOp::Inf),
-        (0u8..6).prop_map(OptOp::Infinity),
+        any::<u8>().prop_map(OptOp::Nan),
+        any::<u8>().prop_map(OptOp::Inf),
+        any::<u8>().prop_map(OptOp::Infinity),
         any::<u16>().prop_map(OptOp::MaxDigits),
         any::<u16>().prop_map(OptOp::MinDigits),
         any::<i32>().prop_map(OptOp::PosBreak),
@@ -341,20 +362,20 @@ fn check_opt_ops(ops: &Vec<OptOp>, l: &mut Local) -> CaseResult {
                 wpoint = *c;
             },
             OptOp::Nan(i) => {
-                pf = pf.nan_string(STRS[*i as usize]);
-                wf = wf.nan_string(STRS[*i as usize]);
-                pnan = STRS[*i as usize];
+                pf = pf.nan_string(strs()[*i as usize % strs().len()]);
+                wf = wf.nan_string(strs()[*i as usize % strs().len()]);
+                pnan = strs()[*i as usize % strs().len()];
                 wnan = pnan;
             },
             OptOp::Inf(i) => {
-                pf = pf.inf_string(STRS[*i as usize]);
-                wf = wf.inf_string(STRS[*i as usize]);
-                pinf = STRS[*i as usize];
+                pf = pf.inf_string(strs()[*i as usize % strs().len()]);
+                wf = wf.inf_string(strs()[*i as usize % strs().len()]);
+                pinf = strs()[*i as usize % strs().len()];
                 winf = pinf;
             },
             OptOp::Infinity(i) => {
-                pf = pf.infinity_string(STRS[*i as usize]);
-                pinfinity = STRS[*i as usize];
+                pf = pf.infinity_string(strs()[*i as usize % strs().len()]);
+                pinfinity = strs()[*i as usize % strs().len()];
             },
             OptOp::MaxDigits(n) => {
                 wf = wf.max_significant_digits(NonZeroUsize::new(*n as usize));
@@ -425,6 +446,15 @@ fn check_opt_ops(ops: &Vec<OptOp>, l: &mut Local) -> CaseResult {
     if built.is_ok() != model_ok {
         l.class("ORACLE-NOTE:parse-options-validity-differs");
         return fail(&format!("ParseFloatOptionsBuilder::build() is {:?} but the documented option rules say valid={model_ok}", built.as_ref().map(|_| ()).map_err(|e| err_kind(e))));
+    }
+    // write options: exponent / decimal point valid ASCII, strings by the same letter rules
+    let wmodel_ok = vcore::fmodel::is_valid_ascii(wexp) && vcore::fmodel::is_valid_ascii(wpoint) && str_ok(wnan, b'n') && str_ok(winf, b'i')
+        // documented by the builder's errors: max >= min digits, breaks on their own side of zero
+        && maxd.map_or(usize::MAX, |x| x.get()) >= mind.map_or(0, |x| x.get())
+        && negb.map_or(0, |x| x.get()) <= 0
+        && posb.map_or(0, |x| x.get()) >= 0;
+    if wf.is_valid() != wmodel_ok || wf.build().is_ok() != wmodel_ok {
+        return fail(&format!("WriteFloatOptionsBuilder::is_valid() = {}, build() ok = {} but the documented option rules say valid={wmodel_ok}", wf.is_valid(), wf.build().is_ok()));
     }
     if pf.is_valid() != model_ok {
         return fail(&format!("ParseFloatOptionsBuilder::is_valid() = {} but build() ok = {model_ok}", pf.is_valid()));
